@@ -58,6 +58,14 @@ def evaluate(v: Variant, root: str) -> dict:
     srcs = apply_variant(v, root)
     if srcs is None:
         return {"variant": v.name, "expected": v.expect, "got": "skipped (anchor text not in the tree)", "ok": True, "skipped": True}
+    import ast as _ast
+
+    for rel_, src_ in srcs.items():
+        try:
+            _ast.parse(src_)
+        except SyntaxError:
+            # the textual edit does not fit the tree under analysis (it was refactored around the anchor): the control cannot be built
+            return {"variant": v.name, "expected": v.expect, "got": f"skipped (edit does not give valid syntax on this tree: {rel_})", "ok": True, "skipped": True}
     try:
         prog = Program(root=root, sources=srcs)
         scratch = Run(prop=v.prop, quiet=True, write_evidence=False)
